@@ -23,7 +23,6 @@ import (
 	"github.com/circlefin/noble-cctp/x/cctp/types"
 	"github.com/cosmos/cosmos-sdk/runtime"
 	sdk "github.com/cosmos/cosmos-sdk/types"
-	"github.com/cosmos/cosmos-sdk/types/query"
 	"google.golang.org/grpc/codes"
 	"google.golang.org/grpc/status"
 )
@@ -53,7 +52,7 @@ func (k Keeper) RemoteTokenMessengers(c context.Context, req *types.QueryRemoteT
 	adapter := runtime.KVStoreAdapter(k.storeService.OpenKVStore(ctx))
 	remoteTokenMessengersStore := prefix.NewStore(adapter, types.KeyPrefix(types.RemoteTokenMessengerKeyPrefix))
 
-	pageRes, err := query.Paginate(remoteTokenMessengersStore, req.Pagination, func(key []byte, value []byte) error {
+	pageRes, err := paginate(remoteTokenMessengersStore, req.Pagination, func(key []byte, value []byte) error {
 		var remoteTokenMessenger types.RemoteTokenMessenger
 		if err := k.cdc.Unmarshal(value, &remoteTokenMessenger); err != nil {
 			return err
